@@ -669,7 +669,14 @@ pub fn batch(prop: &dyn Property, opts: &BatchOpts) -> i32 {
             let mut stable = true;
             for _ in 0..2 {
                 let r2 = pool.run(prop, &min);
-                if r2.verdict != res.verdict {
+                let same = if prop.violation_is_nondeterminism() {
+                    // any observed difference between two runs is the violation; the
+                    // differing position may itself vary from run to run
+                    matches!(&r2.verdict, Verdict::Violation { .. } | Verdict::Pass)
+                } else {
+                    r2.verdict == res.verdict
+                };
+                if !same {
                     stable = false;
                 }
             }
